@@ -89,32 +89,38 @@ Record Div (i : N) (w w' : world) : Prop := {
   dv_ready : ready (w_mod w' i) = [];
   dv_shut : shut (w_mod w' i) = Some (match shut (w_mod w i) with Some r => r | None => None end) }.
 
+Lemma fold_end_task_w m : forall l s, w_mod (x_w (fold_left (end_task m 0) l s)) = w_mod (x_w s) /\
+  w_buf (x_w (fold_left (end_task m 0) l s)) = w_buf (x_w s).
+Proof. induction l as [|tk l IH]; intros s; cbn [fold_left]; [auto|]. destruct (IH (end_task m 0 s tk)) as [a b]. rewrite a, b. auto. Qed.
+
 Lemma exec_quiet k now i c sp p s s' : AgreeX i s s' ->
   (snd (exec k now i c sp p s) = false /\ snd (exec k now i c sp (map quiet_act p) s') = false /\
    AgreeX i (fst (exec k now i c sp p s)) (fst (exec k now i c sp (map quiet_act p) s'))) \/
   (snd (exec k now i c sp p s) = true /\ snd (exec k now i c sp (map quiet_act p) s') = false /\
    Div i (x_w (fst (exec k now i c sp p s))) (x_w (fst (exec k now i c sp (map quiet_act p) s')))).
 Proof.
-  intros H. pose proof H as [Ha Hl]. unfold exec. rewrite (ag_act _ _ _ Ha i).
-  match goal with |- context [run_prog false k now i 0 p (on_w ?f (say ?it s))] =>
-    assert (H0 : AgreeX i (on_w f (say it s)) (on_w f (say it s')))
-      by (apply AgreeX_on_w; [apply AgreeX_say, H|apply spawn_all_agree, Ha]);
+  intros H. pose proof H as [Ha Hl]. unfold exec. rewrite (ag_act _ _ _ Ha i), (ag_mod _ _ _ Ha).
+  match goal with |- context [run_prog false k now i 0 p (say_all ?l (on_w ?f (say ?it s)))] =>
+    assert (H0 : AgreeX i (say_all l (on_w f (say it s))) (say_all l (on_w f (say it s'))))
+      by (apply AgreeX_say_all, AgreeX_on_w; [apply AgreeX_say, H|apply spawn_all_agree, Ha]);
     destruct (run_prog_quiet k now i p _ _ H0) as [(E1 & E2 & E3)|(E1 & E2 & s2 & s2' & E3 & E4 & E5)];
-    destruct (run_prog false k now i 0 p (on_w f (say it s))) as [r1 res1];
-    destruct (run_prog false k now i 0 (map quiet_act p) (on_w f (say it s'))) as [r1' res1'] end; cbn [fst snd] in *.
+    destruct (run_prog false k now i 0 p (say_all l (on_w f (say it s)))) as [r1 res1];
+    destruct (run_prog false k now i 0 (map quiet_act p) (say_all l (on_w f (say it s')))) as [r1' res1'] end; cbn [fst snd] in *.
   - left. subst res1'. destruct res1; cbn [fst snd].
     + split; [reflexivity|split; [reflexivity|apply poll_ready_agree, E3]].
     + exfalso. apply E2. reflexivity.
-    + split; [reflexivity|split; [reflexivity|]].
+    + split; [reflexivity|split; [reflexivity|]]. rewrite (ag_mod _ _ _ (proj1 E3)). apply fold_end_task_agree.
       apply AgreeX_on_w; [exact E3|]. apply (Agree_upd i _ _ (fun x => set_ready x []) (proj1 E3)).
     + split; [reflexivity|split; [reflexivity|apply poll_ready_agree, E3]].
   - right. subst res1 res1' r1 r1'. cbn [fst snd]. split; [reflexivity|split; [reflexivity|]].
-    destruct E3 as [[a b c0] _]. unfold quiet.
-    destruct (shut (w_mod (x_w s2') i)) as [r|] eqn:Es; unfold request; cbn [say on_w x_w].
-    + constructor; cbn [w_buf w_mod set_mod]; rewrite ?N.eqb_refl; cbn [timers nw inc bud hnd catchf ready shut set_ready];
+    destruct E3 as [[a b c0] _].
+    match goal with |- Div i _ (x_w (fold_left ?f0 ?l0 ?s0)) => destruct (fold_end_task_w i l0 s0) as [Fm Fb]; generalize Fm Fb; generalize (x_w (fold_left f0 l0 s0)) end.
+    intros wq Fm' Fb'. clear Fm Fb. unfold quiet in *.
+    destruct (shut (w_mod (x_w s2') i)) as [r|] eqn:Es; unfold request in *; cbn [say on_w x_w] in *.
+    + constructor; rewrite ?Fm', ?Fb'; cbn [w_buf w_mod set_mod]; rewrite ?N.eqb_refl; cbn [timers nw inc bud hnd catchf ready shut set_ready];
         rewrite ?a, ?Es; try reflexivity; try exact c0.
       intros j Hj. apply N.eqb_neq in Hj. rewrite Hj. apply b.
-    + constructor; cbn [w_buf w_mod set_mod]; rewrite ?N.eqb_refl; cbn [w_mod set_mod]; rewrite ?N.eqb_refl;
+    + constructor; rewrite ?Fm', ?Fb'; cbn [w_buf w_mod set_mod]; rewrite ?N.eqb_refl; cbn [w_mod set_mod]; rewrite ?N.eqb_refl;
         cbn [timers nw inc bud hnd catchf ready shut set_ready set_shut]; rewrite ?a, ?Es; try reflexivity; try exact c0.
       intros j Hj. apply N.eqb_neq in Hj. rewrite !Hj. apply b.
 Qed.
